@@ -92,7 +92,22 @@ func fixedType(t *Type) *Type {
 	}
 	t2 := *t
 	t2.Fixed = true
+	if t.Sub != nil {
+		// element types derived from a fixed type, e.g. by indexing or
+		// ranging over a variable, are fixed too.
+		t2.Sub = fixedType(t.Sub)
+	}
 	return &t2
+}
+
+// hasFixed reports whether t or any of its sub types is fixed.
+func (t *Type) hasFixed() bool {
+	for ; t != nil; t = t.Sub {
+		if t.Fixed {
+			return true
+		}
+	}
+	return false
 }
 
 // String returns a string representation of the Type.
